@@ -302,6 +302,20 @@ impl Wake for Flag {
     }
 }
 
+/// the error a failing function returns: every failure PRINTS the same (`{:?}` = "Fail"), the id is
+/// carried on the side — "exactly one error per failed function" also for errors that look alike
+pub struct Fail(pub usize);
+impl std::fmt::Debug for Fail {
+    fn fmt(&self, f: &mut std::fmt::Formatter<'_>) -> std::fmt::Result {
+        f.write_str("Fail")
+    }
+}
+impl std::fmt::Display for Fail {
+    fn fmt(&self, f: &mut std::fmt::Formatter<'_>) -> std::fmt::Result {
+        f.write_str("Fail")
+    }
+}
+
 pub enum RetVal {
     Outcome { state: char, processed: Vec<usize>, notp: Vec<usize>, errs: Vec<usize>, flow: &'static str },
     Err(usize),
@@ -462,7 +476,7 @@ pub fn make_root<'a>(g: GraphRef<'a>, cfg: &RunCfg, sh: &Rc<Shared>, run: usize,
                     if gate.await {
                         Ok(())
                     } else {
-                        Err(id)
+                        Err(Fail(id))
                     }
                 }
             }
@@ -478,7 +492,7 @@ pub fn make_root<'a>(g: GraphRef<'a>, cfg: &RunCfg, sh: &Rc<Shared>, run: usize,
                     if gate.await {
                         Ok(())
                     } else {
-                        Err(id)
+                        Err(Fail(id))
                     }
                 }
             }
@@ -494,7 +508,7 @@ pub fn make_root<'a>(g: GraphRef<'a>, cfg: &RunCfg, sh: &Rc<Shared>, run: usize,
                     if gate.await {
                         ControlFlow::Continue(())
                     } else {
-                        ControlFlow::Break(id)
+                        ControlFlow::Break(Fail(id))
                     }
                 }
             }
@@ -510,22 +524,22 @@ pub fn make_root<'a>(g: GraphRef<'a>, cfg: &RunCfg, sh: &Rc<Shared>, run: usize,
                     if gate.await {
                         ControlFlow::Continue(())
                     } else {
-                        ControlFlow::Break(id)
+                        ControlFlow::Break(Fail(id))
                     }
                 }
             }
         }};
     }
-    fn res_map(r: Result<StreamOutcome<()>, (StreamOutcome<()>, Vec<usize>)>) -> RetVal {
+    fn res_map(r: Result<StreamOutcome<()>, (StreamOutcome<()>, Vec<Fail>)>) -> RetVal {
         match r {
             Ok(o) => outcome(o, vec![], "na"),
-            Err((o, e)) => outcome(o, e, "na"),
+            Err((o, e)) => outcome(o, e.into_iter().map(|x| x.0).collect(), "na"),
         }
     }
-    fn cf_map(r: ControlFlow<(StreamOutcome<()>, Vec<usize>), StreamOutcome<()>>) -> RetVal {
+    fn cf_map(r: ControlFlow<(StreamOutcome<()>, Vec<Fail>), StreamOutcome<()>>) -> RetVal {
         match r {
             ControlFlow::Continue(o) => outcome(o, vec![], "cont"),
-            ControlFlow::Break((o, e)) => outcome(o, e, "break"),
+            ControlFlow::Break((o, e)) => outcome(o, e.into_iter().map(|x| x.0).collect(), "break"),
         }
     }
     match g {
@@ -564,7 +578,7 @@ pub fn make_root<'a>(g: GraphRef<'a>, cfg: &RunCfg, sh: &Rc<Shared>, run: usize,
             "try_fold_async" => {
                 let s = s.clone();
                 Root::Fut(Box::pin(async move {
-                    let r: Result<StreamOutcome<()>, usize> = g
+                    let r: Result<StreamOutcome<()>, Fail> = g
                         .try_fold_async((), move |(), f| {
                             let id = f.idx;
                             let gate = mk_gate(&s, run, id);
@@ -572,7 +586,7 @@ pub fn make_root<'a>(g: GraphRef<'a>, cfg: &RunCfg, sh: &Rc<Shared>, run: usize,
                                 if gate.await {
                                     Ok(())
                                 } else {
-                                    Err(id)
+                                    Err(Fail(id))
                                 }
                             }
                             .boxed_local()
@@ -580,7 +594,7 @@ pub fn make_root<'a>(g: GraphRef<'a>, cfg: &RunCfg, sh: &Rc<Shared>, run: usize,
                         .await;
                     match r {
                         Ok(o) => outcome(o, vec![], "na"),
-                        Err(e) => RetVal::Err(e),
+                        Err(e) => RetVal::Err(e.0),
                     }
                 }))
             }
@@ -588,7 +602,7 @@ pub fn make_root<'a>(g: GraphRef<'a>, cfg: &RunCfg, sh: &Rc<Shared>, run: usize,
                 let s = s.clone();
                 let o = opts!();
                 Root::Fut(Box::pin(async move {
-                    let r: Result<StreamOutcome<()>, usize> = g
+                    let r: Result<StreamOutcome<()>, Fail> = g
                         .try_fold_async_with((), o, move |(), f| {
                             let id = f.idx;
                             let gate = mk_gate(&s, run, id);
@@ -596,7 +610,7 @@ pub fn make_root<'a>(g: GraphRef<'a>, cfg: &RunCfg, sh: &Rc<Shared>, run: usize,
                                 if gate.await {
                                     Ok(())
                                 } else {
-                                    Err(id)
+                                    Err(Fail(id))
                                 }
                             }
                             .boxed_local()
@@ -604,7 +618,7 @@ pub fn make_root<'a>(g: GraphRef<'a>, cfg: &RunCfg, sh: &Rc<Shared>, run: usize,
                         .await;
                     match r {
                         Ok(o) => outcome(o, vec![], "na"),
-                        Err(e) => RetVal::Err(e),
+                        Err(e) => RetVal::Err(e.0),
                     }
                 }))
             }
@@ -692,7 +706,7 @@ pub fn make_root<'a>(g: GraphRef<'a>, cfg: &RunCfg, sh: &Rc<Shared>, run: usize,
             "try_fold_async_mut" => {
                 let s = s.clone();
                 Root::Fut(Box::pin(async move {
-                    let r: Result<StreamOutcome<()>, usize> = g
+                    let r: Result<StreamOutcome<()>, Fail> = g
                         .try_fold_async_mut((), move |(), f| {
                             let id = f.idx;
                             let gate = mk_gate(&s, run, id);
@@ -700,7 +714,7 @@ pub fn make_root<'a>(g: GraphRef<'a>, cfg: &RunCfg, sh: &Rc<Shared>, run: usize,
                                 if gate.await {
                                     Ok(())
                                 } else {
-                                    Err(id)
+                                    Err(Fail(id))
                                 }
                             }
                             .boxed_local()
@@ -708,7 +722,7 @@ pub fn make_root<'a>(g: GraphRef<'a>, cfg: &RunCfg, sh: &Rc<Shared>, run: usize,
                         .await;
                     match r {
                         Ok(o) => outcome(o, vec![], "na"),
-                        Err(e) => RetVal::Err(e),
+                        Err(e) => RetVal::Err(e.0),
                     }
                 }))
             }
@@ -716,7 +730,7 @@ pub fn make_root<'a>(g: GraphRef<'a>, cfg: &RunCfg, sh: &Rc<Shared>, run: usize,
                 let s = s.clone();
                 let o = opts!();
                 Root::Fut(Box::pin(async move {
-                    let r: Result<StreamOutcome<()>, usize> = g
+                    let r: Result<StreamOutcome<()>, Fail> = g
                         .try_fold_async_mut_with((), o, move |(), f| {
                             let id = f.idx;
                             let gate = mk_gate(&s, run, id);
@@ -724,7 +738,7 @@ pub fn make_root<'a>(g: GraphRef<'a>, cfg: &RunCfg, sh: &Rc<Shared>, run: usize,
                                 if gate.await {
                                     Ok(())
                                 } else {
-                                    Err(id)
+                                    Err(Fail(id))
                                 }
                             }
                             .boxed_local()
@@ -732,7 +746,7 @@ pub fn make_root<'a>(g: GraphRef<'a>, cfg: &RunCfg, sh: &Rc<Shared>, run: usize,
                         .await;
                     match r {
                         Ok(o) => outcome(o, vec![], "na"),
-                        Err(e) => RetVal::Err(e),
+                        Err(e) => RetVal::Err(e.0),
                     }
                 }))
             }
